@@ -7,7 +7,9 @@ from .linear import Gen, RNGCORE, step_matrix
 RULE = ("for each linear generator type: the native step, value-numbered on a symbolic state, must be GF(2)-linear with "
         "no opaque bit and no constant term (R1); the extracted n x n matrix must have rank n (R2); its minimal polynomial "
         "(Berlekamp-Massey on Krylov sequences of the extracted matrix) must have degree n and be primitive: x^(2^n)=x and "
-        "x^((2^n-1)/q)!=1 for every certified prime q | 2^n-1 (R3)")
+        "x^((2^n-1)/q)!=1 for every certified prime q | 2^n-1 (R3); the state map of the type's other word method (next_u64 of a 32-bit "
+        "engine, next_u32 of a 64-bit engine), evaluated with everything inlined, must be the matrix T^2 resp. T (R4), so that every "
+        "stepping operation moves along the one cycle")
 
 TRUSTED = ["rustc nightly MIR", "primitive table (vf/prims.py)", "integer arithmetic of CPython",
            "factor table of 2^512-1 (product re-verified, primality by Pratt certificates re-verified each run)"]
@@ -88,6 +90,29 @@ def run(chk, tier):
                     prim, why = False, "two derivations of the characteristic polynomial disagree"
             engines[sig] = (chi, prim, why)
         e["chi"] = chi
+        # R4: the other word-producing method advances the state by a power of the native step (so it stays on the single cycle)
+        other = "next_u64" if ref["native"] == "next_u32" else "next_u32"
+        k = 2 if ref["native"] == "next_u32" else 1
+        try:
+            okey = e["g"].method(RNGCORE, other)
+            chk.body(okey)
+            ev2, st2, pre2, post2, ret2 = e["g"].eval_method(okey)
+            rows2, consts2, bad2 = step_matrix(pre2, post2)
+            if rows2 is None or any(consts2):
+                chk.ob("R4", "%s::%s|state map is the native step applied %d time(s)" % (ident, other, k), False,
+                       "state map of %s is not GF(2)-linear in the state" % other, where=crate.body(okey)["span"][0])
+            else:
+                want = e["rows"]
+                for _ in range(k - 1):
+                    want = alg.matmul(e["rows"], want)
+                okp = list(rows2) == list(want)
+                bad_rows = [i for i, (a_, b_) in enumerate(zip(rows2, want)) if a_ != b_]
+                chk.ob("R4", "%s::%s|state map is the native step applied %d time(s)" % (ident, other, k), okp,
+                       "" if okp else "state bits %s..: %s does not advance the state by T^%d, so repeated %s calls need not stay on "
+                       "the full-period cycle" % (bad_rows[:4], other, k, other), where=crate.body(okey)["span"][0],
+                       sample={"type": ident, "method": other, "power": k} if cnt in (1, 5) else None)
+        except (Anchor, Unsupported, SymbolicLoop) as ex:
+            chk.ob("R4", "%s::%s|state map" % (ident, other), False, "not established: %s" % ex)
         chk.ob("R3", "%s|characteristic polynomial primitive" % ident, prim, why, where=where,
                sample={"type": ident, "n": n, "rank": rk, "chi_weight": bin(chi).count("1"), "chi_low64": hex(chi & (2**64 - 1)), "verdict": why})
     chk.extra["distinct_engines"] = len(engines)
